@@ -9,7 +9,9 @@ import (
 	"fmt"
 	"io"
 	"os"
+	"os/exec"
 	"os/signal"
+	"path/filepath"
 	"regexp"
 	"runtime"
 	"strconv"
@@ -273,6 +275,24 @@ func Commands() map[string]func() {
 				os.WriteFile(os.Args[2], []byte(strconv.Itoa(os.Getpid())), 0o666)
 			}
 			time.Sleep(d)
+		},
+		// hlinger MS: starts a descendant that keeps the inherited standard output
+		// and error open for MS milliseconds, prints "started" and exits 0 at once
+		// (a launcher: the program has succeeded, its output ends later)
+		"hlinger": func() {
+			self, err := os.Executable()
+			if err != nil {
+				os.Exit(9)
+			}
+			cmd := exec.Command(filepath.Join(filepath.Dir(self), "hsleep"), os.Args[1]+"ms")
+			cmd.Stdout = os.Stdout
+			cmd.Stderr = os.Stderr
+			if err := cmd.Start(); err != nil {
+				fmt.Fprintln(os.Stderr, "hlinger:", err)
+				os.Exit(9)
+			}
+			fmt.Println("started")
+			os.Exit(0)
 		},
 		"htouch": func() { os.WriteFile(os.Args[1], []byte("touched\n"), 0o666) },
 	}
